@@ -43,6 +43,9 @@ class C01(EngineBase):
                               ["Z2", "U1", "Z2Z2", "U1U1", "Z4"]]),
             "n_macro": r.choice([12, 20, 30]) if tier == "quick" else r.choice([12, 25, 40]),
             "wseed": r.randrange(2**31),
+            "max_charges": r.choice([3, 3, 3, 4, 5]),
+            "max_size": r.choice([3, 3, 3, 4]),
+            "p_ctor_phases": r.choice([0.0, 0.0, 0.15]),
         }
 
     def start(self, config):
@@ -60,7 +63,9 @@ class C01(EngineBase):
         cfg = st.config
         if st.ctx is None:
             st.ctx = ops.Ctx(rng, kinds=tuple(cfg["kinds"]), syms=tuple(cfg["syms"]),
-                             p_inplace=cfg["p_inplace"], sparsity=cfg["sparsity"])
+                             p_inplace=cfg["p_inplace"], sparsity=cfg["sparsity"],
+                             max_charges=cfg.get("max_charges", 3), max_size=cfg.get("max_size", 3))
+            st.ctx.p_ctor_phases = cfg.get("p_ctor_phases", 0.0)
             st.ctx.weights = ops.swarm_weights(random.Random(cfg["wseed"]), p_off=0.2)
         steps = []
         if rng.random() < cfg["p_cache"]:
@@ -93,7 +98,7 @@ class C01(EngineBase):
         if not new:
             new = ops.gen_steps(st.ctx, st.heap)
         for s in new:
-            if s["op"] == "new" and "variant" not in s:
+            if s["op"] == "new" and "variant" not in s and "indices" in s["a"]["spec"]:
                 st.roots[s["out"][0]] = s["a"]["spec"]
             elif (len(s.get("in", [])) == 1 and s["in"][0] in st.roots
                     and s["in"][0] not in st.first and len(st.first) < 8
